@@ -227,6 +227,39 @@ fn paths(n: usize) {
     std::mem::forget((a, b));
 }
 
+/// with_extra_labels on a base key whose hash is already cached (eagerly hashed constructors, or a static key after its first
+/// get_hash()): the derived key must hash like the same key built directly, not like its base
+fn extra_labels_hash() {
+    let name = crate::s1();
+    let (k, v) = (crate::s1(), crate::s1());
+    let base = if nd::any::<bool>() {
+        Key::from_name(name)
+    } else {
+        let b = Key::from_static_name(name);
+        if nd::any::<bool>() {
+            let _ = b.get_hash();
+        }
+        b
+    };
+    let direct = Key::from_static_labels(name, leak_labels(&[(k, v)]));
+    let derived = base.with_extra_labels(vec![Label::from_static_parts(k, v)]);
+    assert!(derived == direct, "with_extra_labels_equals_the_directly_built_key");
+    assert!(derived.get_hash() == direct.get_hash(), "with_extra_labels_hashes_like_the_directly_built_key");
+    std::mem::forget((base, direct, derived));
+}
+
+/// two labels with the same name in either order are equal keys (Eq treats the labels as a multiset): they must hash alike
+fn same_name_two_labels() {
+    // the two values are fixed and different (a symbolic pair of values does not finish in CBMC); the name is symbolic
+    let name = crate::s1();
+    let (v1, v2) = ("x", "y");
+    let a = Key::from_static_labels(name, leak_labels(&[("a", v1), ("a", v2)]));
+    let b = Key::from_static_labels(name, leak_labels(&[("a", v2), ("a", v1)]));
+    assert!(a == b, "labels_are_a_multiset");
+    assert!(a.get_hash() == b.get_hash(), "eq_implies_same_get_hash");
+    std::mem::forget((a, b));
+}
+
 /// distinct label names: supplied order is irrelevant
 fn perm(n: usize) {
     let name = crate::s1();
@@ -338,4 +371,12 @@ harnesses! {
     fn c03_perm_3() { perm(3) }
     #[cfg_attr(kani, kani::unwind(66))]
     fn c03_big8() { big8() }
+    #[cfg_attr(kani, kani::unwind(34))]
+    #[cfg_attr(kani, kani::stub(<metrics::KeyHasher as std::hash::Hasher>::write, kh_write))]
+    #[cfg_attr(kani, kani::stub(<metrics::KeyHasher as std::hash::Hasher>::finish, kh_finish))]
+    fn c03_extra_labels_hash() { extra_labels_hash() }
+    #[cfg_attr(kani, kani::unwind(34))]
+    #[cfg_attr(kani, kani::stub(<metrics::KeyHasher as std::hash::Hasher>::write, kh_write))]
+    #[cfg_attr(kani, kani::stub(<metrics::KeyHasher as std::hash::Hasher>::finish, kh_finish))]
+    fn c03_same_name_two_labels() { same_name_two_labels() }
 }
